@@ -195,7 +195,9 @@ class World:
         return self.class_aliases[short]
 
     # ---- contracts -------------------------------------------------------------------------
-    def contract(self, target, **kw):
+    def contract(self, target, override=False, **kw):
+        if target in self.contracts and not override:
+            raise RuntimeError(f"contract for {target} registered twice (pass override=True)")
         c = Contract(target, **kw)
         self.contracts[target] = c
         return c
